@@ -76,7 +76,8 @@ Allowed(st, ev) ==
          \* the guest tries every entry point it could ever have been given
          /\ st.status[ev.s] = "cr"
          /\ ev.out = "ok"
-         /\ NoDup(ev.ran)
+         \* (a function may be reached through several stale entry points of a native
+         \*  backend; what the property fixes is the SET of reachable functions)
          /\ ToSet(ev.ran) = Registered(st, ev.s)
          /\ \A i \in 1..Len(ev.sbrefs) : ev.sbrefs[i] = ev.s
     [] ev.e = "xlate" ->
